@@ -288,7 +288,20 @@ func (eng *Engine) loadContractFile(file string) error {
 			}
 			cur = &Contract{Key: key, File: file, Loops: map[int]*LoopContract{}, StrictLen: map[string]bool{}, Public: map[string]bool{}, Secret: map[string]bool{}, Witness: map[string][]ast.Expr{}, Assume: assume, Params: params}
 			if old, dup := eng.contracts[key]; dup {
-				return errf("duplicate contract for %s (also in %s)", key, old.File)
+				// an architecture-specific contract file (zz_contracts_verif_<arch>.go) overrides the generic one
+				archSpecific := func(f string) bool {
+					b := filepath.Base(f)
+					return strings.HasPrefix(b, "zz_contracts_verif_") && b != "zz_contracts_verif.go"
+				}
+				if archSpecific(file) == archSpecific(old.File) {
+					return errf("duplicate contract for %s (also in %s)", key, old.File)
+				}
+				if !archSpecific(file) {
+					// keep the specific one, skip this block
+					cur = &Contract{Key: key + "#overridden", File: file, Loops: map[int]*LoopContract{}, StrictLen: map[string]bool{}, Public: map[string]bool{}, Secret: map[string]bool{}, Witness: map[string][]ast.Expr{}}
+					loop = nil
+					continue
+				}
 			}
 			eng.contracts[key] = cur
 			loop = nil
